@@ -81,6 +81,9 @@ def replay_der(rec, ctx, np, P):
         ctx.fail('Der:%s' % kind, msg[:600], rec)
 
 
+_HELD = {}
+
+
 def replay_clenshaw(rec, ctx, np, P):
     a, b = Fraction(*rec['a']), Fraction(*rec['b'])
     s = [float(v) for v in rec['s']]
@@ -96,6 +99,11 @@ def replay_clenshaw(rec, ctx, np, P):
                 got = P.jacobi_sum_clenshaw(s, float(a), float(b), xx)
                 if core.maxabs(np.asarray(got) - top[0]) > 1e-9 * scale:
                     fails.append(('jacobi_sum_clenshaw:value:%s' % ln, 'got %s want %r' % (np.asarray(got).tolist(), top[0])))
+                # a result handed to the caller earlier must still be that sum after later calls (no shared scratch memory)
+                for (old, oldwant, olds) in _HELD.get(xform, []):
+                    if core.maxabs(np.asarray(old) - oldwant) > 1e-9 * (1 + abs(oldwant)):
+                        fails.append(('jacobi_sum_clenshaw:retained-result-changed', 'the result returned earlier for s=%s now reads %s, it was %r' % (olds, np.asarray(old).tolist(), oldwant)))
+                _HELD[xform] = (_HELD.get(xform, []) + [(got, top[0], rec['s'])])[-3:]
             else:
                 al = P.jacobi_sum_clenshaw_der(s, float(a), float(b), xx, j=j)
                 for jj in range(j + 1):
